@@ -26,11 +26,13 @@ type StaticWarning struct {
 }
 
 func NewStaticWarning(csvFile *csv.File, kind StaticWarningKind) StaticWarning {
+	// The CSV reader reuses the row's backing array for the next row, so copy it.
+	rowContent := append([]string(nil), csvFile.RowContent()...)
 	return StaticWarning{
 		Kind:          kind,
 		File:          csvFile.Name(),
 		RowNumber:     csvFile.RowNumber(),
-		RowContent:    csvFile.RowContent(),
+		RowContent:    rowContent,
 		HeaderContent: csvFile.HeaderContent(),
 	}
 }
